@@ -448,6 +448,24 @@ impl TxInputsBuilder {
     }
 
     fn push_input(&mut self, e: (TxBuilderInput, Option<ScriptHash>)) {
+        // an input that is handed over again replaces the earlier entry: a Plutus witness kept for it
+        // under another script hash would be emitted next to the new one, with the same redeemer pointer
+        let keep = e.1.as_ref();
+        let mut emptied = Vec::new();
+        for (hash, inputs) in self.required_witnesses.scripts.iter_mut() {
+            if Some(hash) == keep {
+                continue;
+            }
+            if let Some(Some(ScriptWitnessType::PlutusScriptWitness(_))) = inputs.get(&e.0.input) {
+                inputs.remove(&e.0.input);
+                if inputs.is_empty() {
+                    emptied.push(hash.clone());
+                }
+            }
+        }
+        for hash in emptied {
+            self.required_witnesses.scripts.remove(&hash);
+        }
         self.inputs.insert(e.0.input.clone(), e);
     }
 
